@@ -1,26 +1,45 @@
+// C19 harness: the real group chain (LevelDB "group" key space + sqlite groupIndex) driven through
+// AddGroup / remove(last) / removeFromCommonAncestor / restart histories.
+// (a) after every operation the property is evaluated directly on the implementation's observables
+//     (predecessor walk, count, height lookups below and above count, lookups by id, sync answers,
+//     sqlite rows) against the list the history should have produced;
+// (b) every history + all observables are written as a case for the Coq model (coq/C19/Harness.v).
 package main
 
 import (
+	"errors"
 	"fmt"
+	"math"
 	"math/big"
+	"os"
+	"runtime"
+	"runtime/debug"
+	"runtime/pprof"
+		"strings"
 
 	"com.tuntun.rangers/node/src/common"
 	"com.tuntun.rangers/node/src/core"
+	"com.tuntun.rangers/node/src/middleware/db"
 	"com.tuntun.rangers/node/src/middleware/mysql"
 	"com.tuntun.rangers/node/src/middleware/notify"
 	"com.tuntun.rangers/node/src/middleware/types"
+	"verif/harness/hx"
 )
 
-type helper struct{ genesis *types.Group }
+// ---- stub consensus helper: one genesis group, every group passes CheckGroup ----
+type helper struct{ genesis types.Group }
 
 func (h *helper) GenerateGenesisInfo() []*types.GenesisInfo {
-	return []*types.GenesisInfo{{Group: *h.genesis}}
+	g := h.genesis
+	hd := *h.genesis.Header
+	g.Header = &hd
+	return []*types.GenesisInfo{{Group: g}}
 }
-func (h *helper) VRFProve2Value(*big.Int) *big.Int                 { return big.NewInt(0) }
-func (h *helper) ProposalBonus() *big.Int                           { return big.NewInt(0) }
-func (h *helper) PackBonus() *big.Int                               { return big.NewInt(0) }
-func (h *helper) VerifyHash(*types.Block) common.Hash               { return common.Hash{} }
-func (h *helper) CheckProveRoot(*types.BlockHeader) (bool, error)   { return true, nil }
+func (h *helper) VRFProve2Value(*big.Int) *big.Int               { return big.NewInt(0) }
+func (h *helper) ProposalBonus() *big.Int                         { return big.NewInt(0) }
+func (h *helper) PackBonus() *big.Int                             { return big.NewInt(0) }
+func (h *helper) VerifyHash(*types.Block) common.Hash             { return common.Hash{} }
+func (h *helper) CheckProveRoot(*types.BlockHeader) (bool, error) { return true, nil }
 func (h *helper) VerifyNewBlock(*types.BlockHeader, *types.BlockHeader) (bool, error) {
 	return true, nil
 }
@@ -36,41 +55,581 @@ func (h *helper) VerifyGroupForFork(*types.Group, *types.Group, *types.Group, *t
 	return true, nil
 }
 
-func mk(id byte, pre, parent []byte) *types.Group {
-	i := make([]byte, 32)
-	i[31] = id
-	return &types.Group{Id: i, Header: &types.GroupHeader{PreGroup: pre, Parent: parent}}
+// ---- ids: number k <-> 32-byte id whose last byte is k; 0 <-> nil ----
+func idBytes(k uint64) []byte {
+	if k == 0 {
+		return nil
+	}
+	b := make([]byte, 32)
+	b[0] = 0xC1
+	b[31] = byte(k)
+	return b
+}
+func idNum(b []byte) uint64 {
+	if len(b) == 0 {
+		return 0
+	}
+	if len(b) != 32 || b[0] != 0xC1 {
+		return 999
+	}
+	for _, x := range b[1:31] {
+		if x != 0 {
+			return 999
+		}
+	}
+	return uint64(b[31])
+}
+
+// projection of a group
+type G struct{ Id, Pre, Parent, H uint64 }
+
+func proj(g *types.Group) *G {
+	if g == nil {
+		return nil
+	}
+	r := &G{Id: idNum(g.Id), H: g.GroupHeight, Pre: 999, Parent: 999}
+	if g.Header != nil {
+		r.Pre, r.Parent = idNum(g.Header.PreGroup), idNum(g.Header.Parent)
+	}
+	return r
+}
+func (g *G) coq() string {
+	if g == nil {
+		return "X"
+	}
+	return fmt.Sprintf("(J %d %d %d %d)", g.Id, g.Pre, g.Parent, g.H)
+}
+func (g *G) eq(o *G) bool {
+	if g == nil || o == nil {
+		return g == nil && o == nil
+	}
+	return *g == *o
+}
+
+func mkGroup(id, pre, parent uint64) *types.Group {
+	return &types.Group{Id: idBytes(id), PubKey: []byte{byte(id)}, Members: [][]byte{{1}, {2}},
+		Header: &types.GroupHeader{PreGroup: idBytes(pre), Parent: idBytes(parent), CreateHeight: 10 * id, Extends: "x"}}
+}
+
+// ---- operations ----
+const (
+	opAdd = iota
+	opRemoveLast
+	opRemoveFrom
+	opRestart
+)
+
+type Op struct {
+	K               int
+	Id, Pre, Parent uint64 // opAdd
+	H               uint64 // opRemoveFrom
+	Cold            bool   // opRestart: close and re-open LevelDB (else initGroupChain on the open store)
+}
+
+func (o Op) String() string {
+	switch o.K {
+	case opAdd:
+		return fmt.Sprintf("add(%d,pre=%d,parent=%d)", o.Id, o.Pre, o.Parent)
+	case opRemoveLast:
+		return "remove-last"
+	case opRemoveFrom:
+		return fmt.Sprintf("remove-from(%d)", o.H)
+	}
+	if o.Cold {
+		return "restart(cold)"
+	}
+	return "restart(warm)"
+}
+func (o Op) kind() string {
+	return []string{"add", "remove-last", "remove-from-ancestor", "restart"}[o.K]
+}
+func (o Op) coq() string {
+	switch o.K {
+	case opAdd:
+		return fmt.Sprintf("HAdd %d %d %d", o.Id, o.Pre, o.Parent)
+	case opRemoveLast:
+		return "HRemoveLast"
+	case opRemoveFrom:
+		return fmt.Sprintf("HRemoveFrom %d", o.H)
+	}
+	return "HRestart"
+}
+
+// ---- observables after one operation ----
+type Obs struct {
+	Ret   uint64
+	Count uint64
+	Last  *G
+	ByH   []*G   // heights 0..U+3
+	ById  []*G   // ids 1..U
+	Walk  []uint64 // ids met by the iterator from the last group, at most count+5
+	Sync  [][]*G // GetSyncGroupsById(id) for ids 1..U
+	SqN   uint64
+	SqH   []int64 // groupheight of id in sqlite, -1 = no row
+}
+
+func coqGs(l []*G) string {
+	p := make([]string, len(l))
+	for i, g := range l {
+		p[i] = g.coq()
+	}
+	return "[" + strings.Join(p, ";") + "]"
+}
+func (o *Obs) coq() string {
+	w := make([]string, len(o.Walk))
+	for i, x := range o.Walk {
+		w[i] = fmt.Sprint(x)
+	}
+	sy := make([]string, len(o.Sync))
+	for i, l := range o.Sync {
+		sy[i] = coqGs(l)
+	}
+	sq := make([]string, len(o.SqH))
+	for i, h := range o.SqH {
+		if h < 0 {
+			sq[i] = "None"
+		} else {
+			sq[i] = fmt.Sprintf("Some %d", h)
+		}
+	}
+	return fmt.Sprintf("Ob %d %d %s %s %s [%s] [%s] %d [%s]", o.Ret, o.Count, o.Last.coq(), coqGs(o.ByH), coqGs(o.ById),
+		strings.Join(w, ";"), strings.Join(sy, ";"), o.SqN, strings.Join(sq, ";"))
+}
+func (o *Obs) sameState(p *Obs) bool { // everything but the return code
+	a, b := *o, *p
+	a.Ret, b.Ret = 0, 0
+	return a.coq() == b.coq()
+}
+
+var theHelper *helper
+
+func observe(U int, ret uint64) *Obs {
+	gc := core.GetGroupChain()
+	o := &Obs{Ret: ret, Count: gc.Count(), Last: proj(gc.LastGroup())}
+	for h := 0; h <= U+3; h++ {
+		o.ByH = append(o.ByH, proj(gc.GetGroupByHeight(uint64(h))))
+	}
+	for id := 1; id <= U; id++ {
+		o.ById = append(o.ById, proj(gc.GetGroupById(idBytes(uint64(id)))))
+		sl := []*G{}
+		for _, g := range gc.GetSyncGroupsById(idBytes(uint64(id))) {
+			sl = append(sl, proj(g))
+		}
+		o.Sync = append(o.Sync, sl)
+		_, dismiss, gh := mysql.SelectGroup(idBytes(uint64(id)))
+		if dismiss == 0 {
+			o.SqH = append(o.SqH, -1)
+		} else {
+			o.SqH = append(o.SqH, int64(gh))
+		}
+	}
+	it := gc.Iterator()
+	g := it.Current()
+	for n := uint64(0); n < o.Count+5 && g != nil; n++ {
+		o.Walk = append(o.Walk, idNum(g.Id))
+		g = it.MovePre()
+	}
+	o.SqN = mysql.CountGroups()
+	return o
+}
+
+// ---- store life cycle ----
+// freshStore gives the next history an empty store: every key of the "group" LevelDB prefix and every
+// sqlite groupIndex row is deleted, then initGroupChain() runs (it finds no "gcurrent" and saves genesis).
+// (Deleting the files instead costs two LevelDB re-opens per history, ~100 ms.)
+func freshStore(U int) {
+	d, err := db.NewDatabase("group")
+	if err != nil {
+		panic(err)
+	}
+	it := d.NewIterator()
+	var keys [][]byte
+	for it.Next() {
+		keys = append(keys, append([]byte{}, it.Key()[len("group"):]...))
+	}
+	it.Release()
+	for _, k := range keys {
+		if err := d.Delete(k); err != nil {
+			panic(err)
+		}
+	}
+	for id := 1; id <= 9; id++ {
+		if err := mysql.DeleteGroup(idBytes(uint64(id))); err != nil {
+			panic(err)
+		}
+	}
+	if n := mysql.CountGroups(); n != 0 {
+		panic(fmt.Sprint("sqlite not empty after reset: ", n))
+	}
+	reinit(false)
+}
+
+// reinit = restart of the group chain. cold: the shared LevelDB is closed and re-opened from its files.
+// The joined-groups LevelDB (opened by initGroupChain, not part of the property, never written here)
+// gets a new empty directory every time: re-opening an existing LevelDB directory makes goleveldb
+// allocate and clear a 128 MiB journal-recovery buffer, which would dominate the run time.
+var jgsN int
+
+// Every LevelDB open allocates a 128 MiB write buffer (fixed in middleware/db). With the collector
+// running, that memory is reused and must be cleared and paged in again on every open (~35 ms); with
+// the collector off it always comes from untouched address space and costs nothing. The live heap of
+// this program is a few MB, so the collector stays off until 512 GiB of address space has been used.
+var gcOff bool
+
+func gcValve() {
+	if !gcOff || jgsN%64 != 0 {
+		return
+	}
+	var ms runtime.MemStats
+	runtime.ReadMemStats(&ms)
+	if ms.Sys > 1<<39 {
+		debug.SetGCPercent(100)
+		gcOff = false
+	}
+}
+
+func reinit(cold bool) {
+	gcValve()
+	oldDir := fmt.Sprintf("storage0/jgs%d", jgsN)
+	jgsN++
+	common.GlobalConf.SetString(common.ConfigSec, common.DefaultJoinedGroupDatabaseKey, fmt.Sprintf("jgs%d", jgsN))
+	if cold {
+		core.VerifGCRestart()
+	} else {
+		core.VerifGCReload()
+	}
+	os.RemoveAll(oldDir)
+}
+
+func apply(o Op) (ret uint64) {
+	gc := core.GetGroupChain()
+	switch o.K {
+	case opAdd:
+		err := gc.AddGroup(mkGroup(o.Id, o.Pre, o.Parent))
+		switch {
+		case err == nil:
+			return 0
+		case errors.Is(err, common.ErrGroupAlreadyExist):
+			return 1
+		case strings.HasPrefix(err.Error(), "parent is not existed"):
+			return 2
+		case strings.HasPrefix(err.Error(), "pre not equal"):
+			return 3
+		}
+		return 9
+	case opRemoveLast:
+		if core.VerifGCRemoveLast() {
+			return 0
+		}
+		return 1
+	case opRemoveFrom:
+		if core.VerifGCRemoveFromCommonAncestor(o.H) {
+			return 0
+		}
+		return 1
+	}
+	reinit(o.Cold)
+	return 0
+}
+
+// ---- reference list: what the history should have produced (genesis first) ----
+type shadow struct{ l []G }
+
+func (s *shadow) has(id uint64) bool {
+	for _, g := range s.l {
+		if g.Id == id {
+			return true
+		}
+	}
+	return false
+}
+func (s *shadow) step(o Op) (ret uint64) {
+	switch o.K {
+	case opAdd:
+		if s.has(o.Id) {
+			return 1
+		}
+		if !s.has(o.Parent) {
+			return 2
+		}
+		if s.l[len(s.l)-1].Id != o.Pre {
+			return 3
+		}
+		s.l = append(s.l, G{o.Id, o.Pre, o.Parent, uint64(len(s.l))})
+		return 0
+	case opRemoveLast:
+		if len(s.l) <= 1 {
+			return 1
+		}
+		s.l = s.l[:len(s.l)-1]
+		return 0
+	case opRemoveFrom:
+		if o.H >= uint64(len(s.l)) {
+			return 1
+		}
+		s.l = s.l[:o.H+1]
+		return 0
+	}
+	return 0
+}
+
+type seqResult struct {
+	steps    []string // coq (op, obs) pairs
+	rets     []uint64
+	removed  bool // a group was removed
+	readd    bool // ... and a group was added afterwards
+	rsAfter  bool // ... and a restart happened afterwards
+	violated bool
+}
+
+// runSeq executes one history on a fresh store and evaluates the property after every operation.
+func runSeq(res *hx.Result, U int, ops []Op) (sr seqResult) {
+	desc := func(upto int) interface{} {
+		p := make([]string, 0, upto+1)
+		for _, o := range ops[:upto+1] {
+			p = append(p, o.String())
+		}
+		return map[string]interface{}{"genesis": "id 1, PreGroup nil", "history": p}
+	}
+	viol := func(i int, clause, what string) {
+		sr.violated = true
+		res.Violate("C19/"+clause+":"+ops[i].kind(), what, desc(i))
+	}
+	freshStore(U)
+	sh := &shadow{l: []G{{1, 0, 0, 0}}}
+	prev := observe(U, 0)
+	for i, o := range ops {
+		var ret uint64
+		var pan interface{}
+		func() {
+			defer func() { pan = recover() }()
+			ret = apply(o)
+		}()
+		if pan != nil {
+			viol(i, "panic", fmt.Sprint("panic: ", pan))
+			sr.steps = append(sr.steps, fmt.Sprintf("(%s, %s)", o.coq(), (&Obs{Ret: 98, Last: &G{}}).coq()))
+			return // the next history starts with freshStore, which wipes the keys and re-runs initGroupChain
+		}
+		want := sh.step(o)
+		ob := observe(U, ret)
+		sr.steps = append(sr.steps, fmt.Sprintf("(%s, %s)", o.coq(), ob.coq()))
+		sr.rets = append(sr.rets, ret)
+		if (o.K == opRemoveLast || o.K == opRemoveFrom) && ob.Count < prev.Count {
+			sr.removed = true
+		} else if sr.removed && o.K == opAdd && ret == 0 {
+			sr.readd = true
+		} else if sr.removed && o.K == opRestart {
+			sr.rsAfter = true
+		}
+		// ---- the property, on the implementation ----
+		if ret != want {
+			viol(i, "result", fmt.Sprintf("operation returned code %d, the history calls for %d", ret, want))
+		}
+		n := uint64(len(sh.l))
+		// last group reachable from genesis through predecessor links; the walk is the list
+		okWalk := uint64(len(ob.Walk)) == n
+		for j := 0; okWalk && j < len(ob.Walk); j++ {
+			okWalk = ob.Walk[j] == sh.l[len(sh.l)-1-j].Id
+		}
+		if !okWalk {
+			viol(i, "walk", fmt.Sprintf("predecessor walk from the last group visits %v, the list is %v (genesis first)", ob.Walk, ids(sh.l)))
+		}
+		if ob.Count != n || ob.Last == nil || ob.Last.Id != sh.l[n-1].Id {
+			viol(i, "count", fmt.Sprintf("Count()=%d LastGroup=%s, the list has %d groups ending in %d", ob.Count, ob.Last.coq(), n, sh.l[n-1].Id))
+		}
+		for h := 0; h < len(ob.ByH); h++ {
+			g := ob.ByH[h]
+			if uint64(h) < ob.Count && uint64(h) < n {
+				e := sh.l[h]
+				if !g.eq(&e) {
+					viol(i, "height-below-count", fmt.Sprintf("GetGroupByHeight(%d)=%s, the %d-th group of the list is %s", h, g.coq(), h, e.coq()))
+				}
+			} else if uint64(h) >= ob.Count && g != nil {
+				viol(i, "height-at-or-above-count", fmt.Sprintf("GetGroupByHeight(%d)=%s although Count()=%d", h, g.coq(), ob.Count))
+			}
+		}
+		for j := range sh.l {
+			e := sh.l[j]
+			if int(e.Id) <= U && !ob.ById[e.Id-1].eq(&e) {
+				viol(i, "by-id", fmt.Sprintf("GetGroupById(%d)=%s, listed group is %s", e.Id, ob.ById[e.Id-1].coq(), e.coq()))
+			}
+			// sync answer: the following (at most five) groups, no nil entry
+			lim := j + 6
+			if lim > len(sh.l) {
+				lim = len(sh.l)
+			}
+			wantSync := sh.l[j+1 : lim]
+			got := ob.Sync[e.Id-1]
+			okS := len(got) == len(wantSync)
+			for k := 0; okS && k < len(got); k++ {
+				okS = got[k].eq(&wantSync[k])
+			}
+			if !okS {
+				viol(i, "sync-groups", fmt.Sprintf("GetSyncGroupsById(%d)=%s, the groups after it are %v", e.Id, coqGs(got), ids(wantSync)))
+			}
+			if ob.SqH[e.Id-1] != int64(j) {
+				viol(i, "sqlite-index", fmt.Sprintf("sqlite groupheight of %d is %d, list position %d", e.Id, ob.SqH[e.Id-1], j))
+			}
+		}
+		if ob.SqN != n {
+			viol(i, "sqlite-index", fmt.Sprintf("sqlite has %d rows, the list has %d groups", ob.SqN, n))
+		}
+		if o.K == opRestart && !ob.sameState(prev) {
+			viol(i, "restart-changes-observables", "before: "+prev.coq()+" after: "+ob.coq())
+		}
+		prev = ob
+	}
+	return
+}
+
+func ids(l []G) []uint64 {
+	r := make([]uint64, len(l))
+	for i, g := range l {
+		r[i] = g.Id
+	}
+	return r
+}
+
+// ---- generators ----
+func genSeq(r *hx.Rng, U int) []Op {
+	n := 6 + r.Intn(10)
+	sh := &shadow{l: []G{{1, 0, 0, 0}}}
+	ops := make([]Op, 0, n)
+	for len(ops) < n {
+		var o Op
+		x := r.Intn(100)
+		full := len(sh.l) >= U-1
+		switch {
+		case (x < 48 && !full) || (x < 15 && full):
+			o.K = opAdd
+			free := []uint64{}
+			for id := uint64(2); id <= uint64(U); id++ {
+				if !sh.has(id) {
+					free = append(free, id)
+				}
+			}
+			if len(free) == 0 || r.Intn(12) == 0 {
+				o.Id = sh.l[r.Intn(len(sh.l))].Id // already on the chain
+			} else {
+				o.Id = free[r.Intn(len(free))]
+			}
+			o.Pre = sh.l[len(sh.l)-1].Id
+			if r.Intn(10) == 0 {
+				o.Pre = uint64(r.Intn(U + 1)) // wrong (or nil) predecessor
+			}
+			o.Parent = sh.l[r.Intn(len(sh.l))].Id
+			if r.Intn(12) == 0 {
+				o.Parent = uint64(r.Intn(U + 1)) // possibly not on the chain
+			}
+		case x < 72:
+			o.K = opRemoveLast
+		case x < 83:
+			o.K = opRemoveFrom
+			o.H = uint64(r.Intn(len(sh.l) + 1))
+		default:
+			o.K = opRestart
+			o.Cold = r.Intn(2) == 0
+		}
+		sh.step(o)
+		ops = append(ops, o)
+	}
+	return ops
 }
 
 func main() {
+	if os.Getenv("C19_PROF") != "" {
+		f, _ := os.Create(os.Getenv("C19_PROF"))
+		pprof.StartCPUProfile(f)
+		defer pprof.StopCPUProfile()
+	}
+	a := hx.ParseArgs()
+	rng := hx.NewRng(a.Seed)
+	res := hx.NewResult("one case = one history of AddGroup / remove(last) / removeFromCommonAncestor / restart on a fresh store (genesis id 1); " +
+		"the property is evaluated after every operation. Generated: all histories up to length 3 (quick) / 5 (thorough) over a 6-letter alphabet, " +
+		"then seeded random histories of 6..15 operations over 7 ids with ~10% refused additions. " +
+		"non-trivial = a history in which a group was actually removed and afterwards a group was added or the node restarted")
+	cs := hx.NewCases(a.Out, "From V.C19 Require Import Model Harness.\nOpen Scope N_scope.", "N * list (hop * obs)", "check", 150)
+
+	if os.Getenv("C19_GC") != "on" {
+		debug.SetGCPercent(-1)
+		gcOff = true
+	}
 	common.Init(0, "c19.ini", "dev")
 	notify.BUS = notify.NewBus()
 	mysql.InitMySql()
-	g0 := mk(1, nil, nil)
-	core.VerifGCInit(&helper{g0})
-	gc := core.GetGroupChain()
-	show := func(tag string) {
-		fmt.Printf("%s: count=%d last=%x mysql=%d\n", tag, gc.Count(), gc.LastGroup().Id[31:], mysql.CountGroups())
-		for i := uint64(0); i < gc.Count()+3; i++ {
-			g := gc.GetGroupByHeight(i)
-			if g == nil {
-				fmt.Printf("  h%d: nil\n", i)
-			} else {
-				fmt.Printf("  h%d: %x (GroupHeight %d)\n", i, g.Id[31:], g.GroupHeight)
-			}
+	g0 := mkGroup(1, 0, 0)
+	g0.Header.DismissHeight = math.MaxUint64
+	theHelper = &helper{genesis: *g0}
+	common.GlobalConf.SetString(common.ConfigSec, common.DefaultJoinedGroupDatabaseKey, "jgs0")
+	core.VerifGCInit(theHelper)
+
+	runCase := func(U int, ops []Op) {
+		sr := runSeq(res, U, ops)
+		names := make([]string, len(ops))
+		for i, o := range ops {
+			names[i] = o.String()
+		}
+		class := "no-removal"
+		switch {
+		case sr.removed && sr.readd && sr.rsAfter:
+			class = "removal+re-add+restart"
+		case sr.removed && sr.readd:
+			class = "removal+re-add"
+		case sr.removed && sr.rsAfter:
+			class = "removal+restart"
+		case sr.removed:
+			class = "removal-only"
+		}
+		res.Count(class, strings.Join(names, ";"), sr.removed && (sr.readd || sr.rsAfter))
+		for _, c := range sr.rets {
+			res.Histogram[fmt.Sprintf("op-result-%d", c)]++
+		}
+		i := cs.Add(fmt.Sprintf("(%d, [%s])", U, strings.Join(sr.steps, ";\n   ")), map[string]interface{}{"genesis": "id 1", "ids": U, "history": names, "results": sr.rets})
+		if i%61 == 7 {
+			res.Sample(map[string]interface{}{"history": names, "results": sr.rets, "class": class})
 		}
 	}
-	show("init")
-	g1 := mk(2, g0.Id, g0.Id)
-	fmt.Println("add g1:", gc.AddGroup(g1))
-	show("after add")
-	fmt.Println("remove last:", core.VerifGCRemoveLast())
-	show("after remove")
-	fmt.Println("sync after last:", len(gc.GetSyncGroupsById(gc.LastGroup().Id)))
-	core.VerifGCRestart()
-	gc = core.GetGroupChain()
-	show("after restart")
-	g2 := mk(3, g0.Id, g0.Id)
-	fmt.Println("add g2:", gc.AddGroup(g2))
-	show("after add g2")
+
+	// exhaustive small scope
+	alpha := []Op{{K: opAdd, Id: 2, Pre: 0xff, Parent: 1}, {K: opAdd, Id: 3, Pre: 0xff, Parent: 1}, {K: opAdd, Id: 2, Pre: 1, Parent: 3},
+		{K: opRemoveLast}, {K: opRemoveFrom, H: 0}, {K: opRestart, Cold: false}}
+	depth := 3
+	if a.Tier == "thorough" {
+		depth = 5
+	}
+	var rec func(pre []Op)
+	rec = func(pre []Op) {
+		if len(pre) > 0 {
+			runCase(3, pre)
+		}
+		if len(pre) == depth {
+			return
+		}
+		for _, o := range alpha {
+			// Pre 0xff = "the current last group" (tracked with a reference list)
+			sh := &shadow{l: []G{{1, 0, 0, 0}}}
+			seq := make([]Op, 0, len(pre)+1)
+			for _, p := range pre {
+				sh.step(p)
+				seq = append(seq, p)
+			}
+			if o.K == opAdd && o.Pre == 0xff {
+				o.Pre = sh.l[len(sh.l)-1].Id
+			}
+			rec(append(seq, o))
+		}
+	}
+	rec(nil)
+	res.Exhaustive = true
+	res.Note(fmt.Sprintf("exhaustive: every history of length <= %d over {add 2 after last, add 3 after last, add 2 with PreGroup=genesis and parent 3, remove-last, remove-from-ancestor(0), restart}", depth))
+	res.Note("restart(cold) = close the shared LevelDB and the joined-groups DB, then initGroupChain() on the same files; restart(warm) = initGroupChain() on the still-open store (exhaustive histories use warm, random ones cold with probability 1/2); crashes between the individual Puts inside save/remove are outside the property as stated and are not generated")
+
+	for i := 0; i < a.N; i++ {
+		runCase(7, genSeq(rng, 7))
+	}
+	core.VerifGCShutdown()
+	mysql.CloseMysql()
+	cs.Close()
+	res.ModelCases = cs.Total()
+	res.Write(a.Out)
 }
